@@ -42,4 +42,40 @@ def admitGeneratedUnitary (expansionIsInt : Bool) (algoKnown : Bool) (isChebyshe
   else if isChebyshev && !specLimGiven then some .assertionError
   else none
 
+/-- `openfermion_utils.largest_operator_index`: largest even and largest odd mode index, `-1` when absent -/
+def largestIndex (idxs : List Nat) : Int × Int :=
+  idxs.foldl (fun (acc : Int × Int) (i : Nat) => if i % 2 = 1 then (acc.1, max (i : Int) acc.2) else (max (i : Int) acc.1, acc.2)) (-1, -1)
+
+/-- the orbital-range guard of `fqe_decorators.fermionops_tomatrix` (Python `//` is floor division) -/
+def admitOpIndices (norb : Nat) (idxs : List Nat) : Option Refusal :=
+  let m := largestIndex idxs
+  if (norb : Int) ≤ m.1 / 2 then some .valueError
+  else if (norb : Int) ≤ m.2 / 2 then some .valueError
+  else none
+
+/-- one whitespace-separated token of an RDM pattern: its label, whether it carries `^`, and whether it has one
+    of the two accepted shapes (`x` or `x^`) -/
+structure Tok where
+  label : Nat
+  dag : Bool
+  shaped : Bool
+deriving Repr
+
+/-- spin slot of the token at position `idx` (`index % nrank` for spin-free requests) -/
+def spinSlot (spinfree : Bool) (nrank idx : Nat) : Nat := if spinfree then idx % nrank else 0
+
+/-- the loop of `wick.process_string`; `out` holds `(label, dagger, spin slot)` of the tokens already accepted -/
+def patternGo (spinfree : Bool) (nrank : Nat) : Nat → List (Nat × Bool × Nat) → List Tok → Option Refusal
+  | _, _, [] => none
+  | idx, out, t :: ts =>
+    if !t.shaped then some .valueError
+    else if out.any (fun o => o.1 == t.label) then some .assertionError
+    else if spinfree && out.any (fun o => o.2.2 == spinSlot spinfree nrank idx && o.2.1 == t.dag) then some .valueError
+    else patternGo spinfree nrank (idx + 1) (out ++ [(t.label, t.dag, spinSlot spinfree nrank idx)]) ts
+
+/-- `wick.process_string(target)` -/
+def admitPattern (spinfree : Bool) (toks : List Tok) : Option Refusal :=
+  if toks.length % 2 = 1 then some .assertionError
+  else patternGo spinfree (toks.length / 2) 0 [] toks
+
 end Model
